@@ -219,7 +219,7 @@ void harness(void) {
 _base2 = obligations
 def obligations():
     obs = _base2()
-    obs.append(Ob(id='C07.read_topo_chunk', props=['C07', 'C18', 'C06'], tu='ovmb', cfg='ovmb', tier='B', roots=[BR + 'read_topo_chunk'], stubs=TOPO_STUBS, harness=TOPO_HARNESS, preamble=TOPO_PRE,
+    obs.append(Ob(id='C07.read_topo_chunk', props=['C07', 'C18', 'C06'], quick_for=[], tu='ovmb', cfg='ovmb', tier='B', roots=[BR + 'read_topo_chunk'], stubs=TOPO_STUBS, harness=TOPO_HARNESS, preamble=TOPO_PRE,
                   unwind=42, unwind_start=4, timeout=1800, defines={'VSTD_CAP_DEFAULT': 18}, bounds=dict(chunk_bytes=40, entities_per_chunk='<= 16 bytes of payload'),
                   note='read_topo_chunk with read_edges/read_faces/read_cells and the per-encoding decoding lambdas inlined, on ANY chunk of up to 40 bytes and any reader state; kernel add_* are stubs asserting that every handle designates an existing entity'))
     obs.append(Ob(id='C07.validate_span', props=['C07', 'C18'], tu='ovmb', cfg='ovmb', tier='U', roots=[BR + 'validate_span'],
